@@ -349,6 +349,13 @@ class C11(Campaign):
             first["start_value"] = value_of(prog, rnd.choice(prog["states"])["id"])
         if first.get("listeners") and rnd.random() < 0.5 and names_ok(prog, ["machine", "model"] + first["listeners"][:1]):
             first["listeners"] = first["listeners"][:1]
+        if is_async and not any(m.get("async") for c, m in prog["cbs"].items()
+                                if c.split(".", 1)[0] in ["machine", "model"] + list(first.get("listeners", []))):
+            # the coroutine callbacks of the program live on listeners this instance would not attach: the
+            # rest of the scenario (driver, concurrent activations) is laid out for an async machine
+            first["listeners"] = list(first.get("listeners", [])) + sorted(
+                {c.split(".", 1)[0] for c, m in prog["cbs"].items() if m.get("async")}
+                - {"machine", "model"} - set(first.get("listeners", [])))
         out = [first]
         for op in ops[1:]:
             r = rnd.random()
